@@ -11,7 +11,7 @@ from . import c05
 
 ID = 'C01'
 LEVEL = 'exploration'
-RULE = ('Hypothesis drives (through st.randoms, so that every choice is shrinkable and replayable) the stylesheet/document generator that was used to validate '
+RULE = ('Hypothesis draws a seed for the stylesheet/document generator (uniform pseudo-random programs; failures are minimised structurally by reduce(), the saved case is the program text) that was used to validate '
         'the reference interpreter: error-free and terminating by construction, over template rules with match/name/mode/priority, built-in rules, '
         'apply-templates/-imports, call-template, for-each, sort, value-of, copy, copy-of, element, attribute, attribute sets, text, comment, PI, if, '
         'choose, variables/params incl. result-tree fragments and with-param, xsl:number, keys, import/include trees, strip/preserve-space, literal result '
@@ -65,7 +65,12 @@ def build(rnd):
 
 def strategy(ctx):
     load_flags(ctx)
-    return st.randoms(use_true_random=False).map(build)
+    # Hypothesis draws a SEED and the program generator runs on random.Random(seed).  (Driving the generator through st.randoms made every
+    # one of its choices a Hypothesis draw, whose distributions are skewed towards boundary values: the programs were far less varied than
+    # with a uniform generator - measured on a seeded regression that 0.12 % of uniformly generated programs expose and the skewed stream
+    # never did.)  Minimisation is done by reduce() on the program text, not by shrinking the seed.
+    import random
+    return st.integers(0, 2 ** 48).map(lambda seed: build(random.Random(seed)))
 
 
 def param_field(k, v):
@@ -267,8 +272,11 @@ def reduce(ctx, failure, max_trials=600):
 
     def still(c):
         trials[0] += 1
+        from ..drv import DriverCrash, crash_signature
         try:
             d = check(ctx, c)
+        except DriverCrash as e:
+            d = {'crash': crash_signature(e.stderr), 'stderr': e.stderr[-4000:]}
         except Exception:
             return None
         if not d:
